@@ -59,6 +59,11 @@ func createCron(node gen.Node) *cron {
 			return
 		}
 		actionTime := time.Now().Truncate(time.Minute)
+
+		// AddJob/EnableJob must not put a job into the spool while it is being emptied:
+		// c.next is still the minute that is being fired, the job would be fired
+		// once more for it (or by the next tick, for a minute its spec does not denote)
+		c.Lock()
 		for {
 
 			item, ok := c.spool.Pop()
@@ -81,6 +86,7 @@ func createCron(node gen.Node) *cron {
 				// do nothing
 				c.node.Log().Debug(cronLogPrefix+"ignore job %s action time != now",
 					cj.job.Name)
+				c.Unlock()
 				return
 			}
 
@@ -133,7 +139,11 @@ func createCron(node gen.Node) *cron {
 		next := now.Add(time.Minute).Truncate(time.Minute)
 		in := next.Sub(now)
 		c.timer.Reset(in)
-		c.schedule(next)
+		c.next = next
+		for _, cj := range c.jobs {
+			c.scheduleJob(cj)
+		}
+		c.Unlock()
 	})
 
 	return c
@@ -326,15 +336,6 @@ func (c *cron) terminate() {
 		return
 	}
 	c.timer.Stop()
-}
-
-func (c *cron) schedule(next time.Time) {
-	c.RLock()
-	defer c.RUnlock()
-	c.next = next
-	for _, cj := range c.jobs {
-		c.scheduleJob(cj)
-	}
 }
 
 func (c *cron) scheduleJob(cj *cronJob) {
